@@ -156,9 +156,14 @@ theorem staticCallsT_acc (st : StructTable) (insOf : String → List Param)
   | cons c cs ih =>
     intro sib acc
     simp only [staticCallsT]
-    split
-    · rw [ih, ih _ ([] ++ _)]; simp
-    · rw [ih, ih _ ([] ++ _)]; simp
+    repeat' split
+    all_goals (rw [ih, ih _ ([] ++ _)]; simp)
+
+end Proofs.ResolverStatic
+
+namespace Proofs.ResolverStatic
+open Martian.Dataflow Martian.Resolver Martian.ResolverForks Martian.ResolverStatic Proofs.Dataflow
+  Proofs.ResolverForks
 
 /-! ## den on a map call below a fork list -/
 
